@@ -53,7 +53,11 @@ def downsample_ids(n, N):
         raise Refusal("downsample<1")
     if N == 1:
         return [0]
-    return [k * (n - 1) // (N - 1) for k in range(N)]
+    # evenly spaced by index, first and last pose included; numpy's
+    # linspace semantics (floor of the float product) - the exact floor
+    # differs by one for a few (n, N) where k(n-1)/(N-1) is an integer that
+    # the float product misses by an ulp (e.g. n=31, N=23, k=11)
+    return [int(v) for v in np.linspace(0, n - 1, N)]
 
 
 def downsample(t, N):
